@@ -85,7 +85,8 @@ End ==
   /\ LET fin == IF wk.st = "ok" /\ run.mt \in Types THEN Finish(Layout(run.mt), wk.w).res ELSE "reject"
          mech == LossMechanisms
                   \cup (IF AcceptedInvalid # {} THEN {"InvalidContentAccepted"} ELSE {})
-         lossy == E.res = "accepted" /\ (~CleanAccept \/ AcceptedInvalid # {} \/ ~E.same)
+         sameTags == ToSeq(E.out) = toks      \* the serialisation tokenises to the input's tag sequence
+         lossy == E.res = "accepted" /\ (~CleanAccept \/ AcceptedInvalid # {} \/ ~E.same \/ ~sameTags)
      IN results' = IF lossy \/ (E.res = "accepted" /\ fin # "accept") \/ E.res = "panic"
                    THEN Append(results, [id |-> run.id, mt |-> run.mt, res |-> E.res, lossy |-> lossy,
                                          mech |-> mech, walker |-> fin, same |-> E.same])
